@@ -77,9 +77,26 @@ impl Property for C05 {
     }
     fn tape_len(&self, tier: Tier) -> usize { tier.pick(400, 700) }
     fn cases(&self, tier: Tier) -> u32 { tier.pick(200000, 4000000) }
-    fn required_labels(&self, _tier: Tier) -> Vec<&'static str> { vec!["bound>=2", "scratch_mentioned", "anti_scratch_present", "anti_scratch_rejected", "too_complex_rejected", "named_overlap"] }
+    fn required_labels(&self, _tier: Tier) -> Vec<&'static str> { vec!["bound>=2", "scratch_mentioned", "anti_scratch_present", "anti_scratch_rejected", "too_complex_rejected", "named_overlap", "eosd-params", "eosd-params:unnamed", "eosd-params:exhausted"] }
 
     fn generate(&self, tape: &mut Tape, _tier: Tier, known: &Known) -> Value {
+        if tape.chance(1, 8) {
+            // EoSD ECL subs with parameters: the parameter registers (I0 = REG[-10001], F0 = REG[-10005]) are general-purpose
+            // registers of that language, so they must be kept out of the scratch pool while the sub has such a parameter,
+            // whether or not the parameter has a name
+            let params: Vec<(char, bool)> = { let mut v = vec![]; if tape.bool() { v.push(('i', tape.bool())); } if tape.bool() { v.push(('f', tape.bool())); } if tape.bool() { v.reverse(); } v };
+            let ptext: Vec<String> = params.iter().map(|(c, named)| format!("{}{}", if *c == 'i' { "int" } else { "float" }, if *named { if *c == 'i' { " pa" } else { " pf" } } else { "" })).collect();
+            let (ni, nf) = (tape.below(4), tape.below(4));
+            let mut body = String::new();
+            for k in 0..ni { body.push_str(&format!("    int x{} = {};\n", k, 100 + k)); }
+            for k in 0..nf { body.push_str(&format!("    float y{} = {}.5;\n", k, k)); }
+            // expressions that need temporaries
+            if ni > 0 && tape.bool() { body.push_str(&format!("    x0 = (x0 * 3 + 2) * (x{} + 7);\n", ni - 1)); }
+            if nf > 0 && tape.bool() { body.push_str(&format!("    y0 = (y0 * 3.0 + 2.0) * (y{} + 7.0);\n", nf - 1)); }
+            for r in 1..4 { if tape.chance(1, 6) { body.push_str(&format!("    $REG[{}] = 1;\n", -10001 - r)); } }
+            let text = format!("script timeline0 {{\n}}\n\nvoid Sub0({}) {{\n{}}}\n", ptext.join(", "), body);
+            return json!({"mode": "eosd-params", "text": text, "int_param": params.iter().any(|p| p.0 == 'i'), "float_param": params.iter().any(|p| p.0 == 'f'), "unnamed": params.iter().any(|p| !p.1)});
+        }
         let with_anti = tape.chance(1, 6);
         let knobs = LangKnobs { pad_intrinsics: 2, rich: true, anti_scratch: true };
         let spec = gen_lang(tape, &knobs);
@@ -99,6 +116,7 @@ impl Property for C05 {
     }
 
     fn check(&self, case: &Value, ctx: &mut CheckCtx) -> Outcome {
+        if case["mode"] == "eosd-params" { return check_eosd_params(case, ctx); }
         let spec = LangSpec::from_json(&case["spec"]);
         let text = case["text"].as_str().unwrap();
         let getv = |k: &str| -> Vec<i32> { case[k].as_array().map(|a| a.iter().map(|x| x.as_i64().unwrap() as i32).collect()).unwrap_or_default() };
@@ -186,4 +204,50 @@ impl Property for C05 {
             Outcome::Pass
         })
     }
+}
+
+
+/// EoSD ECL: no local and no temporary may live in a parameter register of the enclosing sub.
+fn check_eosd_params(case: &Value, ctx: &mut CheckCtx) -> Outcome {
+    use crate::files::{self, Fmt};
+    let text = case["text"].as_str().unwrap();
+    let g = truth::Game::Th06;
+    ctx.label("eosd-params");
+    if case["unnamed"] == true { ctx.label("eosd-params:unnamed"); }
+    let r = tx::with_truth(|truth| files::compile_file(truth, Fmt::Ecl, g, text.as_bytes(), &[], vec![]).map(|c| (c.bytes, c.debug_info)).map_err(|s| (s, tx::diags(truth))));
+    let (bytes, dbg) = match r {
+        Ok(x) => x,
+        Err((s, d)) => {
+            if !tx::has_error_diag(&d) { return Outcome::Fail(Failure::new("c05:eosd-params:err-without-diagnostic", format!("{:?}\n{}", s, text))); }
+            // too few registers left: a rejection is what the property asks for
+            ctx.label("eosd-params:exhausted");
+            return Outcome::Pass;
+        }
+    };
+    let mut forbidden: Vec<i32> = vec![];
+    if case["int_param"] == true { forbidden.push(-10001); }
+    if case["float_param"] == true { forbidden.push(-10005); }
+    if !forbidden.is_empty() { ctx.nontrivial(); }
+    let script = dbg["exported-scripts"].as_array().and_then(|a| a.iter().find(|s| s["exported-as"]["type"] == "olde-ecl-sub")).cloned().unwrap_or(Value::Null);
+    for l in script["locals"].as_array().cloned().unwrap_or_default() {
+        let name = l["name"].as_str().unwrap_or("");
+        if name == "pa" || name == "pf" { continue; }
+        let reg = l["bound-to"]["reg"].as_i64().unwrap_or(0) as i32;
+        if forbidden.contains(&reg) { return Outcome::Fail(Failure::new("c05:eosd-params:local-in-parameter-register", format!("local {} is bound to REG[{}], the register of a parameter of the enclosing sub\n{}", name, reg, text))); }
+    }
+    // the parameters are never used in the body, so their registers must not occur in the emitted instructions at all
+    let file = match tx::with_truth(|truth| files::read_file(truth, Fmt::Ecl, g, &bytes, false).map_err(|_| ())) { Ok(f) => f, Err(()) => return Outcome::Discard("written file unreadable".into()) };
+    for instrs in crate::props::c03::scripts_of(&file) {
+        for i in &instrs {
+            for w in i.args_blob.chunks(4) {
+                if w.len() < 4 { continue; }
+                let v = i32::from_le_bytes([w[0], w[1], w[2], w[3]]);
+                let f = f32::from_le_bytes([w[0], w[1], w[2], w[3]]);
+                for reg in &forbidden {
+                    if v == *reg || f == *reg as f32 { return Outcome::Fail(Failure::new("c05:eosd-params:parameter-register-used-as-scratch", format!("the emitted instruction (opcode {}, args {:02x?}) uses REG[{}], the register of a parameter that the body never mentions\n{}", i.opcode, i.args_blob, reg, text))); }
+                }
+            }
+        }
+    }
+    Outcome::Pass
 }
